@@ -9,9 +9,16 @@ pub trait TreapItemSized {
     fn size(&self) -> usize;
 }
 
+// seed of the next thread's generator: the first thread that creates a node gets 42
+static NEXT_SEED: std::sync::atomic::AtomicU64 = std::sync::atomic::AtomicU64::new(42);
+
 thread_local! {
-    // one generator per thread: nodes can be created on several threads at once
-    static RNG: std::cell::Cell<Rng> = std::cell::Cell::new(Rng::from_seed(42));
+    // one generator per thread: nodes can be created on several threads at once.
+    // The seeds differ, otherwise treaps built on different threads would carry identical priorities
+    // and merging them would degenerate into chains of ties
+    static RNG: std::cell::Cell<Rng> = std::cell::Cell::new(Rng::from_seed(
+        NEXT_SEED.fetch_add(0x9E37_79B9_7F4A_7C15, std::sync::atomic::Ordering::Relaxed),
+    ));
 }
 
 type Priority = u32;
